@@ -497,6 +497,9 @@ def real_conf(world, c, extra=None):
     if c["ov"]:
         from beartype import FrozenDict
         kw["hint_overrides"] = FrozenDict({world.A: world.B})
+    if c.get("ov3"):
+        from beartype import FrozenDict
+        kw["hint_overrides"] = FrozenDict({world.A: typing.Union[world.A, int, str]})
     if extra:
         kw.update(extra)
     return BeartypeConf(**kw)
